@@ -444,14 +444,49 @@ func c02() []*Ob {
 					}
 					n++
 					guarded := false
+					tracked := true
 					for _, f := range FactsAtInstr(ap.(ssa.Instruction)) {
 						if bo, ok := f.Cond.(*ssa.BinOp); ok && (bo.Op == token.EQL || bo.Op == token.NEQ) {
 							if (bo.Op == token.EQL) != f.Val {
 								guarded = true
+								// "the previously appended one" is a loop-carried value that takes the appended element on some way
+								// round the loop: a side that never changes (the initial constant for ever) compares nothing
+								for _, side := range [][2]ssa.Value{{bo.X, bo.Y}, {bo.Y, bo.X}} {
+									if _, isK := side[0].(*ssa.Const); isK && InLoop(ap.(ssa.Instruction).Block()) {
+										tracked = false // go/ssa folds a loop variable that is never assigned into its initial constant
+										continue
+									}
+									phi, isPhi := side[0].(*ssa.Phi)
+									if !isPhi || !InLoop(phi.Block()) {
+										continue
+									}
+									takes := false
+									seenPhi := map[*ssa.Phi]bool{}
+									var walk func(p *ssa.Phi)
+									walk = func(p *ssa.Phi) {
+										if seenPhi[p] {
+											return
+										}
+										seenPhi[p] = true
+										for _, e := range p.Edges {
+											if q, ok := e.(*ssa.Phi); ok {
+												walk(q)
+											} else if _, isK := e.(*ssa.Const); !isK {
+												takes = true
+											}
+										}
+									}
+									walk(phi)
+									if !takes {
+										tracked = false
+									}
+								}
 							}
 						}
 					}
-					if guarded {
+					if guarded && !tracked {
+						c.Violation("dom:mergeSorted:prev-not-updated", ap.Pos(), "the value an element is compared with before it is appended never changes inside the loop (it is not set to the appended element): the check compares with the initial value for ever, and a LID that is queued twice is appended twice")
+					} else if guarded {
 						c.Site(ap.Pos(), "an element is appended only when it differs from the previously appended one")
 					} else {
 						c.Violation("dom:mergeSorted:prev-check", ap.Pos(), "an element is appended to the merged posting list without the previous-value check")
